@@ -209,6 +209,35 @@ fn insensitivity_case(seed: u64, trace: bool) -> CaseOut {
 }
 
 /// Stateless reset tokens: only the exact token issued for the CID in use resets a connection.
+/// The destination CID the victim currently puts into its packets (learnt from a packet it is made
+/// to send now).
+fn dcid_in_use(w: &mut crate::world::World, vep: usize, dcid_len: usize) -> Option<Vec<u8>> {
+    // nothing may be on its way that could make it switch
+    for _ in 0..2000 {
+        if w.net.q.is_empty() {
+            break;
+        }
+        if !w.step() {
+            break;
+        }
+    }
+    let t0 = w.now;
+    w.apply_op(crate::world::Op::Ping { ep: vep });
+    let _ = w.run(3, w.now + 1, |_| false);
+    // (a victim that cannot send right now - congestion, pacing - tells nothing)
+    let pair = w.eps[vep].conns.values().next().map(|c| c.pair)?;
+    if w.mon.nci_seen.get(&(vep, pair)).map_or(true, |n| n.last_dcid_sent_ns < t0) {
+        return None;
+    }
+    last_dcid(w, vep, dcid_len)
+}
+
+/// Destination CID of the last short-header packet the victim sent, as decoded by the wire monitor.
+fn last_dcid(w: &crate::world::World, vep: usize, dcid_len: usize) -> Option<Vec<u8>> {
+    let pair = w.eps[vep].conns.values().next().map(|c| c.pair)?;
+    w.mon.nci_seen.get(&(vep, pair)).and_then(|n| n.last_dcid_sent.clone()).filter(|c| c.len() == dcid_len)
+}
+
 fn reset_case(seed: u64, trace: bool) -> CaseOut {
     let mut r = Rng::new(seed ^ 0x7E5E7);
     let mut kn = knobs(seed, Lane::Null);
@@ -218,12 +247,19 @@ fn reset_case(seed: u64, trace: bool) -> CaseOut {
     kn.idle_off = true;
     let mut h = Honest::random(seed, &kn);
     h.cid_len = [*r.pick(&[4, 8, 16, 20]), *r.pick(&[4, 8, 20])];
-    h.cid_lifetime_ms = None;
+    // sometimes the issuer rotates its CIDs (NEW_CONNECTION_ID with retire_prior_to): the victim
+    // then moves on to a CID it already holds, and only that CID's token may reset it
+    h.cid_lifetime_ms = *r.pick(&[None, None, Some(150), Some(600)]);
     let mut w = h.build();
     if trace {
         w.trace = Some(vec![]);
     }
     let _ = w.run(20_000, 600_000_000_000, |w| w.steps > 3 && w.all_connected() && w.workload_complete());
+    if let Some(l) = h.cid_lifetime_ms {
+        // let a few rotations happen, then stop at a quiet moment
+        let until = w.now + (2 + r.below(4)) * l * 1_000_000 + r.below(l * 1_000_000);
+        let _ = w.run(20_000, until, |_| false);
+    }
     let mut out = CaseOut::default();
     if !w.all_connected() || any_lost(&w) {
         out.inconclusive = Some("handshake did not complete".into());
@@ -232,17 +268,21 @@ fn reset_case(seed: u64, trace: bool) -> CaseOut {
     // victim: the client; the CID it uses as destination was issued by the server (endpoint 0)
     let victim_is_client = r.bool();
     let (vep, pep) = if victim_is_client { (1usize, 0usize) } else { (0usize, 1usize) };
+    // the peer falls silent from here on (no further rotation: what the victim holds is final);
+    // what is still on the wire is delivered first
+    w.vanished.insert(pep);
+    for _ in 0..5000 {
+        if w.net.q.is_empty() || !w.step() {
+            break;
+        }
+    }
     // learn the destination CID in use from the victim's next packet
-    w.apply_op(crate::world::Op::Ping { ep: vep });
-    let before = w.net.gid;
-    let _ = w.run(3, w.now + 1, |_| false);
     let dcid_len = w.eps[pep].spec.cid_len;
-    let sample = w.recent.iter().rev().find(|d| d.gid > before && d.src == w.eps[vep].addr && d.data[0] & 0x80 == 0).cloned();
-    let Some(sample) = sample else {
+    let Some(sample) = dcid_in_use(&mut w, vep, dcid_len) else {
         out.inconclusive = Some("no short-header packet captured".into());
         return out;
     };
-    let dcid = ConnectionId::new(&sample.data[1..1 + dcid_len]);
+    let dcid = ConnectionId::new(&sample);
     let key = NullHmacKey(hash64(h.seed, &[b"reset", &[pep as u8]]));
     let mut sig = vec![0u8; 32];
     key.sign(&dcid, &mut sig);
@@ -250,8 +290,38 @@ fn reset_case(seed: u64, trace: bool) -> CaseOut {
     let peer_addr = w.eps[pep].addr;
     let victim_addr = w.eps[vep].addr;
     let lost_before: u32 = w.eps[vep].conns.values().map(|c| c.app.lost_count).sum();
-    // wrong tokens first: random suffixes and single-bit variations of the right one
+    // wrong tokens first: the tokens of every other CID the peer has issued to this connection
+    // (retired ones and ones not yet in use), ...
     let mut wrong = 0;
+    let pair = w.eps[vep].conns.values().next().map(|c| c.pair).unwrap_or(0);
+    let others: Vec<Vec<u8>> = w.mon.nci_seen.get(&(vep, pair)).map(|n| n.cids.values().filter(|c| c[..] != dcid[..]).cloned().collect()).unwrap_or_default();
+    if std::env::var("QV_C04_DEBUG").is_ok() {
+        let n = w.mon.nci_seen.get(&(vep, pair));
+        eprintln!("C04DEBUG in use {} = seq {:?}; known seqs {:?}; retired_sent {:?}", crate::util::hex(&dcid), n.and_then(|n| n.cids.iter().find(|(_, c)| c[..] == dcid[..]).map(|x| *x.0)), n.map(|n| n.cids.keys().copied().collect::<Vec<_>>()), n.map(|n| n.retired_sent.iter().copied().collect::<Vec<_>>()));
+    }
+    if std::env::var("QV_C04_DEBUG").is_ok() {
+        let n = w.mon.nci_seen.get(&(vep, pair)).cloned().unwrap_or_default();
+        for (seq, c) in &n.cids {
+            let mut sig2 = vec![0u8; 32];
+            key.sign(&ConnectionId::new(c), &mut sig2);
+            eprintln!("C04DEBUG seq {seq} cid {} computed token {} frame token {}", crate::util::hex(c), crate::util::hex(&sig2[..16]), n.tokens.get(seq).map(|t| crate::util::hex(t)).unwrap_or_default());
+        }
+        let p = w.eps[vep].conns.values().next().map(|c| c.c.verif_probe());
+        eprintln!("C04DEBUG victim remote cid state: {:?}", p.map(|p| p.state));
+    }
+    for (i, c) in others.iter().enumerate() {
+        let mut sig2 = vec![0u8; 32];
+        key.sign(&ConnectionId::new(c), &mut sig2);
+        let dl = 40 + r.usize(100);
+        let mut d = r.bytes(dl);
+        d[0] = 0x40 | (d[0] & 0x3f);
+        let n = d.len();
+        d[n - 16..].copy_from_slice(&sig2[..16]);
+        w.inject(w.now + 500 * (i as u64 + 1), peer_addr, victim_addr, None, d, 0, true);
+        wrong += 1;
+        out.cnt.inc("c04.other_cid_reset_tokens");
+    }
+    // ... random suffixes and single-bit variations of the right one
     for i in 0..(20 + r.below(40)) {
         let dl = 40 + r.usize(200);
         let mut d = r.bytes(dl);
@@ -266,9 +336,14 @@ fn reset_case(seed: u64, trace: bool) -> CaseOut {
         w.inject(at, peer_addr, victim_addr, None, d, 0, true);
         wrong += 1;
     }
-    let limit = w.now + 500_000_000;
-    let _ = w.run(500, limit, |_| false);
+    let limit = w.now + 2_000_000;
+    let _ = w.run(2000, limit, |_| false);
     let lost_mid: u32 = w.eps[vep].conns.values().map(|c| c.app.lost_count).sum();
+    if last_dcid(&w, vep, dcid_len).map_or(true, |c| c[..] != dcid[..]) || (lost_mid == lost_before && dcid_in_use(&mut w, vep, dcid_len).map_or(true, |c| c[..] != dcid[..])) {
+        // (the victim moved on to another CID in the meantime: a rotation was under way)
+        out.inconclusive = Some("the CID in use changed during the probe".into());
+        return out;
+    }
     out.cnt.add("c04.wrong_reset_tokens", wrong);
     if lost_mid != lost_before {
         let reasons: Vec<String> = w.eps[vep].conns.values().flat_map(|c| c.app.lost.clone()).collect();
